@@ -348,6 +348,24 @@ func c12prop(ev *evid.Rec) func(rt *rapid.T) {
 					c.conn.Request(hlref.TranSetClientUserInfo, fld(hlref.FUserName, c.name), fld(hlref.FUserIconID, hlref.BE16(c.idx)), fld(hlref.FOptions, hlref.BE16(opts)))
 					verify("set refuse-private-chat", nil)
 				},
+				"rename": func(rt *rapid.T) {
+					// the user takes another name in mid-session (every account here may use any name) - with the options field the
+					// 1.5 clients send, or without it as the older ones do; what it says afterwards is said under the new name
+					c := pick("who", isConn)
+					withOpts := rapid.Bool().Draw(rt, "withOptionsField")
+					c.name = []byte(fmt.Sprintf("Nova%d-%d", c.idx, len(history)))
+					history = append(history, fmt.Sprintf("rename %d to %q (options field: %v)", c.idx, c.name, withOpts))
+					fs := []hlref.Field{fld(hlref.FUserName, c.name), fld(hlref.FUserIconID, hlref.BE16(c.idx))}
+					if withOpts {
+						opts := 0
+						if c.refuse {
+							opts = 2
+						}
+						fs = append(fs, fld(hlref.FOptions, hlref.BE16(opts)))
+					}
+					c.conn.Request(hlref.TranSetClientUserInfo, fs...)
+					verify("rename", nil)
+				},
 				"inviteToChat": func(rt *rapid.T) {
 					ch := pickChat("chat", func(ch *c12chat) bool { return true })
 					if ch == nil {
